@@ -271,9 +271,39 @@ Section Render.
   Lemma ty_tok_comma ts lvl :
     ty_tok lookup_ty (ts, lvl) s_comma = bind (backtrack ts []) (fun s' => Ok (TNone :: s', lvl)).
   Proof. reflexivity. Qed.
-  Lemma ty_tok_star a r lvl :
+  (* `*` finds no pending operator to apply: below the instances on top of the stack
+     is a bracket or the Product of an enclosing `A * ...` *)
+  Fixpoint after_insts (s : list titem) : list titem :=
+    match s with TInst _ :: r => after_insts r | _ => s end.
+  Definition sguard (s : list titem) : Prop :=
+    match after_insts s with
+    | TCon c :: _ => Nat.eqb (fst c) (fst c_product) = true
+    | _ => True
+    end.
+
+  Lemma split_insts_after s : forall acc, snd (split_insts s acc) = after_insts s.
+  Proof. induction s as [|[|t|c] s IH]; intros acc; cbn [split_insts after_insts snd]; auto. Qed.
+
+  Lemma star_collapse_guard s : sguard s -> star_collapse s = Ok s.
+  Proof.
+    unfold sguard, star_collapse. rewrite <- (split_insts_after s []).
+    destruct (split_insts s []) as [args rest]. cbn [snd].
+    destruct rest as [|[|t|c] r]; auto. destruct args; auto. now intros ->.
+  Qed.
+
+  Lemma ty_tok_star a r lvl : sguard (TInst a :: r) ->
     ty_tok lookup_ty (TInst a :: r, lvl) s_star = Ok (TInst a :: TCon c_product :: r, lvl).
-  Proof. reflexivity. Qed.
+  Proof.
+    intros Hg.
+    change (ty_tok lookup_ty (TInst a :: r, lvl) s_star)
+      with (bind (star_collapse (TInst a :: r)) (fun stack1 =>
+              match stack1 with
+              | [] => Crash STypePop
+              | TInst t1 :: r0 => Ok (TInst t1 :: TCon c_product :: r0, lvl)
+              | _ :: _ => Err EParse
+              end)).
+    now rewrite star_collapse_guard.
+  Qed.
 
   (* one token inside brackets: the loop goes on *)
   Lemma run_ty_inner t r K b v ts lvl S' x lvl' :
@@ -288,6 +318,7 @@ Section Render.
   Definition PI (T : pty) (tt : list str) : Prop :=
     exists its, Collapses its T /\
       forall K b v S x lvl more, (1 <= lvl)%Z -> (forall t, x <> TInst t) ->
+        sguard (S ++ [x; TNone]) ->
         run (tt ++ more) (TS K b v (S ++ [x; TNone]) lvl) =
         run more (TS K b v (its ++ S ++ [x; TNone]) lvl).
 
@@ -320,7 +351,7 @@ Section Render.
     apply TyI_TyArgs_ind.
     - (* atom *)
       intros T t HA. exists [TInst T]. split; [intros R; reflexivity|].
-      intros K b v S x lvl more Hl Hx. cbn [app].
+      intros K b v S x lvl more Hl Hx _. cbn [app].
       change (TInst T :: S ++ [x; TNone]) with ((TInst T :: S) ++ [x; TNone]).
       apply run_ty_inner; auto.
       + eapply TyAtom_nonempty; eauto.
@@ -330,7 +361,7 @@ Section Render.
       exists (rev (map TInst args) ++ [TCon (c, n)]). split.
       + intros R. rewrite <- app_assoc, backtrack_insts. cbn [app backtrack].
         unfold mk_tapp. cbn [snd fst]. rewrite app_nil_r, <- Hlen, Nat.eqb_refl. reflexivity.
-      + intros K b v S x lvl more Hlv Hx.
+      + intros K b v S x lvl more Hlv Hx _.
         cbn [app]. rewrite <- app_assoc. cbn [app].
         rewrite (run_ty_inner t _ K b v _ lvl (TCon (c, n) :: S) x lvl); auto using ty_name_nonempty.
         2:{ now apply ty_tok_con. }
@@ -343,37 +374,39 @@ Section Render.
         rewrite <- !app_assoc. reflexivity.
     - (* ( T ) *)
       intros T tt _ (its & HC & IH). exists [TInst T]. split; [intros R; reflexivity|].
-      intros K b v S x lvl more Hlv Hx.
+      intros K b v S x lvl more Hlv Hx _.
       cbn [app]. rewrite <- app_assoc. cbn [app].
       rewrite (run_ty_inner s_lp _ K b v _ lvl (TNone :: S) x (lvl + 1)); auto using s_lp_ne; try lia.
-      cbn [app]. rewrite (IH K b v (TNone :: S) x (lvl + 1)%Z) by (auto; lia).
+      cbn [app]. rewrite (IH K b v (TNone :: S) x (lvl + 1)%Z) by (auto; try lia; exact I).
       cbn [app]. now apply close_inner.
     - (* A * B, A an atom *)
       intros A t B tb HA _ (itsB & HCB & IHB).
       exists (itsB ++ [TInst A; TCon c_product]). split.
       + intros R. rewrite <- app_assoc, HCB. reflexivity.
-      + intros K b v S x lvl more Hlv Hx. cbn [app].
+      + intros K b v S x lvl more Hlv Hx Hg. cbn [app].
         rewrite (run_ty_inner t _ K b v _ lvl (TInst A :: S) x lvl); auto.
         2:{ eapply TyAtom_nonempty; eauto. }
         2:{ now apply ty_tok_atom. }
         rewrite (run_ty_inner s_star _ K b v _ lvl (TInst A :: TCon c_product :: S) x lvl); auto using s_star_ne.
-        rewrite (IHB K b v (TInst A :: TCon c_product :: S) x lvl) by auto.
+        2:{ apply (ty_tok_star A (S ++ [x; TNone]) lvl). exact Hg. }
+        rewrite (IHB K b v (TInst A :: TCon c_product :: S) x lvl) by (auto; reflexivity).
         f_equal. unfold TS. f_equal. f_equal. cbn [app]. rewrite <- app_assoc. reflexivity.
     - (* (A) * B *)
       intros A ta B tb _ (itsA & HCA & IHA) _ (itsB & HCB & IHB).
       exists (itsB ++ [TInst A; TCon c_product]). split.
       + intros R. rewrite <- app_assoc, HCB. reflexivity.
-      + intros K b v S x lvl more Hlv Hx. cbn [app]. rewrite <- app_assoc. cbn [app].
+      + intros K b v S x lvl more Hlv Hx Hg. cbn [app]. rewrite <- app_assoc. cbn [app].
         rewrite (run_ty_inner s_lp _ K b v _ lvl (TNone :: S) x (lvl + 1)); auto using s_lp_ne; try lia.
-        cbn [app]. rewrite (IHA K b v (TNone :: S) x (lvl + 1)%Z) by (auto; lia).
+        cbn [app]. rewrite (IHA K b v (TNone :: S) x (lvl + 1)%Z) by (auto; try lia; exact I).
         cbn [app]. rewrite (close_inner itsA A) by auto.
         rewrite (run_ty_inner s_star _ K b v _ lvl (TInst A :: TCon c_product :: S) x lvl); auto using s_star_ne.
-        rewrite (IHB K b v (TInst A :: TCon c_product :: S) x lvl) by auto.
+        2:{ apply (ty_tok_star A (S ++ [x; TNone]) lvl). exact Hg. }
+        rewrite (IHB K b v (TInst A :: TCon c_product :: S) x lvl) by (auto; reflexivity).
         f_equal. unfold TS. f_equal. f_equal. cbn [app]. rewrite <- app_assoc. reflexivity.
     - (* last argument *)
       intros T tt _ (its & HC & IH) K b v S x lvl more Hlv Hx.
       change (TNone :: S ++ [x; TNone]) with ((TNone :: S) ++ [x; TNone]).
-      rewrite (IH K b v (TNone :: S) x (lvl + 1)%Z) by (auto; lia).
+      rewrite (IH K b v (TNone :: S) x (lvl + 1)%Z) by (auto; try lia; exact I).
       rewrite run_cons by apply s_rp_ne. rewrite step_tok_ty, ty_tok_rp.
       cbn [app]. rewrite HC. cbn [backtrack bind map rev app].
       replace (lvl + 1 - 1)%Z with lvl by lia. reflexivity.
@@ -381,7 +414,7 @@ Section Render.
       intros T tt Ts tts _ (its & HC & IH) _ IHs K b v S x lvl more Hlv Hx.
       rewrite <- app_assoc. cbn [app].
       change (TNone :: S ++ [x; TNone]) with ((TNone :: S) ++ [x; TNone]).
-      rewrite (IH K b v (TNone :: S) x (lvl + 1)%Z) by (auto; lia).
+      rewrite (IH K b v (TNone :: S) x (lvl + 1)%Z) by (auto; try lia; exact I).
       rewrite (run_ty_inner s_comma _ K b v _ (lvl + 1) (TNone :: TInst T :: S) x (lvl + 1)); auto using s_comma_ne; try lia.
       2:{ rewrite ty_tok_comma. cbn [app]. rewrite HC. reflexivity. }
       pose proof (IHs K b v (TInst T :: S) x lvl more Hlv Hx) as IH'.
@@ -422,7 +455,7 @@ Section Render.
         with (Ok (TS K b v ([] ++ [TNone; TNone]) 1)).
       cbn [bind].
       destruct TyI_TyArgs_sound as [HS _]. destruct (HS T tt HI) as (its & HC & IH).
-      rewrite (IH K b v [] TNone 1%Z); [|lia|discriminate].
+      rewrite (IH K b v [] TNone 1%Z); [|lia|discriminate|exact I].
       rewrite run_cons by apply s_rp_ne. rewrite step_tok_ty, ty_tok_rp. cbn [app].
       rewrite HC. cbn [backtrack bind].
       change (post (P K b MExpr) v ([TInst T; TNone], (1 - 1)%Z))
